@@ -28,7 +28,7 @@ var ignoredFuncs = map[string]bool{
 	"sync/atomic.Int64.Add": true, "sync/atomic.Int64.Store": true, "sync/atomic.Int32.Add": true, "sync/atomic.Bool.Store": true,
 	"sync/atomic.Uint64.Add": true, "sync/atomic.Uint32.Add": true,
 	"context.Background": true, "context.TODO": true, "context.Context.Done": true,
-	"time.Now": true, ".error.Error": true,
+	"time.Now": true, ".error.Error": true, "strconv.Itoa": true,
 }
 
 func (fv *FuncVerifier) calleeOf(call *ast.CallExpr) types.Object {
@@ -123,6 +123,29 @@ func (fv *FuncVerifier) hasEffects(e ast.Expr) bool {
 		return !eff
 	})
 	return eff
+}
+
+// callsContracted: e contains a call of a function that has a (non-pure, non-ignore) contract or
+// that an atcall clause of the verified function refers to.
+func (fv *FuncVerifier) callsContracted(e ast.Expr) bool {
+	found := false
+	ast.Inspect(e, func(n ast.Node) bool {
+		if _, ok := n.(*ast.FuncLit); ok {
+			return false
+		}
+		if c, ok := n.(*ast.CallExpr); ok {
+			if fn, ok := fv.calleeOf(c).(*types.Func); ok {
+				if sp := fv.prog.specs[funcKey(fn)]; sp != nil && (sp.Kind == SKContract || sp.Kind == SKTrusted || sp.Kind == SKInline) {
+					found = true
+				}
+				if len(fv.spec.AtCalls[fn.Name()]) > 0 {
+					found = true
+				}
+			}
+		}
+		return !found
+	})
+	return found
 }
 
 func (fv *FuncVerifier) isPureExpr(e ast.Expr) bool { return !fv.hasEffects(e) }
@@ -226,7 +249,7 @@ func (fv *FuncVerifier) havocResults(t types.Type, st *State) []Term {
 			return
 		}
 		if fv.specMode > 0 || fv.termMode {
-			reject("effectful call in specification")
+			reject("effectful call in specification (result type %s)", t)
 		}
 		v := fv.u.freshConst("r", s)
 		fv.assumeTyped(st, v, t)
@@ -469,6 +492,14 @@ func (fv *FuncVerifier) evalFuncCall(fn *types.Func, call *ast.CallExpr, st *Sta
 					fv.u.note("calls into %s are ignored here (opaque results, no modelled effect): %s", ip, key)
 					fv.evalReceiverChain(call, st)
 					fv.havocAddressedLocals(call, st)
+					// an argument that calls a function under contract (or one an atcall clause is
+					// attached to) is executed for its effects and obligations; calls that are
+					// themselves opaque stay unexecuted
+					for _, a := range call.Args {
+						if _, isLit := ast.Unparen(a).(*ast.FuncLit); !isLit && fv.callsContracted(a) {
+							fv.eval(a, st)
+						}
+					}
 					// the call's own (instantiated) result type: a generic callee's signature
 					// would give type parameters
 					if ct := fv.typeOf(call); ct != nil {
@@ -688,6 +719,21 @@ func (fv *FuncVerifier) evalSpecHelper(fn *types.Func, call *ast.CallExpr, st *S
 			reject("__rm(%d): no such enclosing map range loop", n)
 		}
 		return []Term{fv.rmStack[len(fv.rmStack)-1-n]}
+	case "__rc":
+		// completed iterations of the n-th enclosing map range loop
+		tv := fv.info().Types[call.Args[0]]
+		n := 0
+		if tv.Value != nil {
+			fmt.Sscan(tv.Value.ExactString(), &n)
+		}
+		if n < 0 || n >= len(fv.rcStack) {
+			reject("__rc(%d): no such enclosing map range loop", n)
+		}
+		v, ok := st.vars[fv.rcStack[len(fv.rcStack)-1-n]]
+		if !ok {
+			reject("__rc(%d): counter not available here", n)
+		}
+		return []Term{v}
 	case "__ri":
 		tv := fv.info().Types[call.Args[0]]
 		n := 0
